@@ -39,6 +39,7 @@ def qsvd_glue(env, m, n, R=None):
             rec = env.R.utils.quat_matmat(env.R.utils.quat_matmat(Uk, Sm), env.R.utils.quat_hermitian(Vk))
             env.eq('A = U S V^H (distinct singular values)', cm.as_nested(env, rec), cm.as_nested(env, X), tol=1e-7)
             env.eq('U^H U = I (distinct singular values)', cm.as_nested(env, env.R.utils.quat_matmat(env.R.utils.quat_hermitian(Uk), Uk)), cm.eye_nested(r), tol=1e-7)
+        _structured_battery(env, X)
         return
     Uq = env.qarr('u', (m, m))
     Vq = env.qarr('v', (n, n))
@@ -86,6 +87,47 @@ def qsvd_glue(env, m, n, R=None):
     tail_s = [0 if i < rr else sig[i] for i in range(p)]
     tail = cm_matmul_nested(cm_matmul_nested(Un, _diag_nested(tail_s, m, n)), _herm_nested(Vn))
     env.eq('A - U_R S_R V_R^H = sum_{i>R} s_i u_i v_i^H', [[[a - b for a, b in zip(e1, e2)] for e1, e2 in zip(r1, r2)] for r1, r2 in zip(Xn, rec)], tail)
+
+
+def _structured_battery(env, X):
+    """real-library side only: the basis-independent clauses (values non-negative, sorted, equal to the true singular values; for distinct
+    non-zero values also reconstruction and the Eckart-Young error of every truncation) on the structured inputs the property names -
+    Hermitian indefinite, unitary, identity-like, rank-deficient, rectangular - built around the model's first entry
+    (seeded change C05-e: an eigh fast path for Hermitian input that ordered by signed eigenvalue)"""
+    import numpy as np
+    Qs, ut, qn = env.R.qsvd, env.R.utils, env.quaternion
+    rs = np.random.RandomState(2)
+    x0 = qn.as_float_array(X)[0, 0, :]
+    x0 = x0 if np.all(np.isfinite(x0)) and np.max(np.abs(x0)) < 1e3 else np.zeros(4)
+
+    def q(a):
+        return qn.as_quat_array(np.asarray(a, dtype=float))
+    mats = []
+    for n_, eigs in [(3, (1.0, -4.0, 2.0)), (4, (3.0, 1.0, -2.0, -5.0)), (2, (-3.0, 1.0))]:
+        G = rs.randn(4 * n_, 4 * n_)
+        Qr, _ = np.linalg.qr(ut.real_expand(q(rs.randn(n_, n_, 4) + 0.01 * x0)))
+        Qq = ut.real_contract(Qr, n_, n_)          # quaternion unitary (full-rank generic input)
+        D = np.zeros((n_, n_, 4)); D[range(n_), range(n_), 0] = eigs
+        mats.append(('hermitian indefinite %dx%d' % (n_, n_), ut.quat_matmat(ut.quat_matmat(Qq, q(D)), ut.quat_hermitian(Qq))))
+        mats.append(('diag%r' % (eigs,), q(D)))
+    mats.append(('rectangular 4x2', q(rs.randn(4, 2, 4) + x0)))
+    mats.append(('rectangular 2x4', q(rs.randn(2, 4, 4) + x0)))
+    for tag, B in mats:
+        m_, n_ = B.shape
+        p_ = min(m_, n_)
+        ref = np.linalg.svd(ut.real_expand(B), compute_uv=False)[::4][:p_]
+        U, sv, V = Qs.classical_qsvd_full(B)
+        sc = max(float(ref[0]), 1e-300)
+        env.holds('[battery %s] singular values non-negative, non-increasing and equal to the true ones' % tag,
+                  all(sv[i] >= -1e-12 for i in range(p_)) and all(sv[i] >= sv[i + 1] - 1e-9 * sc for i in range(p_ - 1)) and
+                  float(np.max(np.abs(np.asarray(sv)[:p_] - ref))) <= 1e-8 * sc)
+        if len(set(np.round(ref / sc, 6))) == p_ and ref[-1] > 1e-6 * sc:
+            for R in range(1, p_ + 1):
+                Ut_, st, Vt_ = Qs.classical_qsvd(B, R)
+                Sm = np.zeros((R, R, 4)); Sm[range(R), range(R), 0] = st[:R]
+                rec = ut.quat_matmat(ut.quat_matmat(Ut_, q(Sm)), ut.quat_hermitian(Vt_))
+                e2 = float(np.sum((qn.as_float_array(B) - qn.as_float_array(rec)) ** 2))
+                env.holds('[battery %s] rank-%d truncation attains the Eckart-Young optimum sum_{i>R} s_i^2' % (tag, R), abs(e2 - float(np.sum(ref[R:] ** 2))) <= 1e-7 * sc * sc)
 
 
 def qsvd_1x1(env):
